@@ -195,6 +195,10 @@ pub fn case<const COLS: usize, const PIS: usize>(seed: u64, case: u64, quick: bo
             let out = attempt(&stark, &config, &t2, &pis);
             set_knobs(StarkProverKnobs { skip_constraint_check: true, lenient_truncation: true, ..Default::default() });
             judge(&mut acc, "prover_never_commits_to_a_quotient", true, &out, &ctx, json!({}));
+            set_knobs(StarkProverKnobs { skip_constraint_check: true, lenient_truncation: true, zero_quotient_without_openings: true, ..Default::default() });
+            let out = attempt(&stark, &config, &t2, &pis);
+            set_knobs(StarkProverKnobs { skip_constraint_check: true, lenient_truncation: true, ..Default::default() });
+            judge(&mut acc, "prover_commits_to_zero_quotient_and_omits_its_openings", true, &out, &ctx, json!({}));
         }
     }
     // wrong public inputs, consistently given to the prover
